@@ -163,6 +163,8 @@ func (h *hier) source() string {
 				sb.WriteString("    function vs() { return self::tag(); }\n")
 			}
 			sb.WriteString("    function vt() { return static::tag(); }\n")
+			// a chain of late-bound static calls: the runtime class must survive every hop
+			sb.WriteString("    static function s1() { return static::s2(); }\n    static function s2() { return static::tag(); }\n    function v2() { return static::s1(); }\n")
 			if h.Parent[i] >= 0 && h.nearest(h.DefM, h.Parent[i]) >= 0 {
 				sb.WriteString("    function vp() { return parent::m(); }\n")
 			}
@@ -182,9 +184,10 @@ func (h *hier) source() string {
 			fmt.Fprintf(&sb, "try { acc%s(new %s('x')); __obs(\"th:%d:%s\", true); } catch (Throwable $e) { __obs(\"th:%d:%s\", false); __obs(\"thmsg:%d:%s\", $e->getMessage()); }\n", t, cname(x), x, t, x, t, x, t)
 			fmt.Fprintf(&sb, "try { throw new %s('x'); } catch (%s $e) { __obs(\"ca:%d:%s\", true); } catch (Throwable $e) { __obs(\"ca:%d:%s\", false); }\n", cname(x), t, x, t, x, t)
 		}
-		for _, f := range []string{"m", "vs", "vt", "vp"} {
+		for _, f := range []string{"m", "vs", "vt", "vp", "v2"} {
 			fmt.Fprintf(&sb, "try { __obs(\"d%s:%d\", (new %s('x'))->%s()); } catch (Throwable $e) { __obs(\"!d%s:%d\", $e->getMessage()); }\n", f, x, cname(x), f, f, x)
 		}
+		fmt.Fprintf(&sb, "try { __obs(\"ds1:%d\", %s::s1()); } catch (Throwable $e) { __obs(\"!ds1:%d\", $e->getMessage()); }\n", x, cname(x), x)
 	}
 	return sb.String()
 }
@@ -284,6 +287,8 @@ func c08Judge(pool *sb.Pool, rec *sb.Rec, h *hier) []*failure {
 			}
 			if t := h.nearest(h.DefTag, x); t >= 0 {
 				chk("static::", fmt.Sprintf("dvt:%d", x), t, "tag", true, dist(x, d)+"-"+dist(x, t))
+				chk("static::chain", fmt.Sprintf("ds1:%d", x), t, "tag", true, dist(x, d)+"-"+dist(x, t))
+				chk("static::chain-from-instance", fmt.Sprintf("dv2:%d", x), t, "tag", true, dist(x, d)+"-"+dist(x, t))
 			}
 			// vp exists in class c (defining m) only if an ancestor of c defines m; find nearest class from x that has vp
 			for c := x; c >= 0; c = h.Parent[c] {
@@ -497,7 +502,7 @@ func TestC08(t *testing.T) {
 	cfg := sb.LoadConfig("C08")
 	rec := sb.NewRec(cfg)
 	defer rec.Flush()
-	rec.R.Rule = "complete enumeration of all hierarchies with <= 3 classes (single-inheritance forests below Exception) and <= 2 interfaces (extends DAGs), all implements subsets and all placements of an overridable method and of a static method; seeded hierarchies up to 5 classes + 4 interfaces; per hierarchy all (object class, type) pairs through instanceof, a typed parameter and catch, and all (object class, call form) pairs through $o->m(), parent::, self::, static::; plus an enumeration of structural (like) cases over class chains of depth <= 3. Non-trivial = a hierarchy with an interface edge or a chain of length >= 2; distinct by hierarchy."
+	rec.R.Rule = "complete enumeration of all hierarchies with <= 3 classes (single-inheritance forests below Exception) and <= 2 interfaces (extends DAGs), all implements subsets and all placements of an overridable method and of a static method; seeded hierarchies up to 5 classes + 4 interfaces; per hierarchy all (object class, type) pairs through instanceof, a typed parameter and catch, and all (object class, call form) pairs through $o->m(), parent::, self::, static:: (also through a chain of two static:: hops started from Class::s1() and from an instance); plus an enumeration of structural (like) cases over class chains of depth <= 3. Non-trivial = a hierarchy with an interface edge or a chain of length >= 2; distinct by hierarchy."
 	pool := &sb.Pool{}
 	defer pool.Close()
 	dl := time.Now().Add(budget(cfg, 60, 700))
